@@ -170,6 +170,28 @@ type Event struct {
 	L    Labels `json:"l"`
 	Live bool   `json:"live,omitempty"`
 	OK   bool   `json:"ok,omitempty"`
+	Call int    `json:"call,omitempty"` // concurrent harness: id of the API call that made the backend call (0 = none)
+}
+
+// CallCtx travels in the context of one API call of the concurrent harness (cmd/snapconc): identity of the
+// call and its private fault script.
+type CallCtx struct {
+	ID   int
+	MOK  bool
+	CBad map[int]bool
+	UBad map[int]bool
+}
+
+type callKey struct{}
+
+// WithCall attaches a CallCtx to ctx.
+func WithCall(ctx context.Context, c *CallCtx) context.Context {
+	return context.WithValue(ctx, callKey{}, c)
+}
+
+func callOf(ctx context.Context) *CallCtx {
+	c, _ := ctx.Value(callKey{}).(*CallCtx)
+	return c
 }
 
 func (e Event) Coq() string {
@@ -301,6 +323,9 @@ type RecFS struct {
 	Problems []string
 	// OnLiveUnmount is called (with the lock released) when Unmount hits a registered mountpoint.
 	OnLiveUnmount func(id int)
+	failedUnmount map[string]bool // mountpoints whose live Unmount was scripted to fail
+	// OnLiveUnmountCall: same, with the id of the API call (concurrent harness).
+	OnLiveUnmountCall func(call, id int)
 }
 
 func NewRecFS(root string) *RecFS {
@@ -356,18 +381,26 @@ func (f *RecFS) Mount(ctx context.Context, mountpoint string, labels map[string]
 	if !ok {
 		f.problem("Mount(%s) with unexpected labels %v", mountpoint, labels)
 	}
-	if st, err := os.Stat(mountpoint); err != nil || !st.IsDir() {
-		f.problem("Mount(%s): mountpoint directory does not exist", mountpoint)
-	}
+	cc := callOf(ctx)
 	mok := f.mok
 	if f.mokFn != nil {
 		mok = f.mokFn(d.Id)
 	}
-	f.Events = append(f.Events, Event{Ev: "mount", D: d, L: l, OK: mok})
+	call := 0
+	if cc != nil {
+		mok, call = cc.MOK, cc.ID
+	}
+	if st, err := os.Stat(mountpoint); err != nil || !st.IsDir() {
+		if cc == nil {
+			f.problem("Mount(%s): mountpoint directory does not exist", mountpoint)
+		}
+		mok = false // a FUSE mount on a directory that is gone fails
+	}
+	f.Events = append(f.Events, Event{Ev: "mount", D: d, L: l, OK: mok, Call: call})
 	if !mok {
 		return fmt.Errorf("scripted mount failure")
 	}
-	if _, dup := f.Table[mountpoint]; dup {
+	if _, dup := f.Table[mountpoint]; dup && cc == nil {
 		f.problem("Mount(%s): mountpoint already has a live backend mount", mountpoint)
 	}
 	cp := map[string]string{}
@@ -383,8 +416,12 @@ func (f *RecFS) Check(ctx context.Context, mountpoint string, labels map[string]
 	defer f.mu.Unlock()
 	d := f.dirent(mountpoint)
 	_, live := f.Table[mountpoint]
-	ok := live && !f.cbad[d.Id]
-	f.Events = append(f.Events, Event{Ev: "check", D: d, OK: ok})
+	bad, call := f.cbad[d.Id], 0
+	if cc := callOf(ctx); cc != nil {
+		bad, call = cc.CBad[d.Id], cc.ID
+	}
+	ok := live && !bad
+	f.Events = append(f.Events, Event{Ev: "check", D: d, OK: ok, Call: call})
 	if !ok {
 		return fmt.Errorf("scripted check failure")
 	}
@@ -395,23 +432,37 @@ func (f *RecFS) Unmount(ctx context.Context, mountpoint string) error {
 	f.mu.Lock()
 	d := f.dirent(mountpoint)
 	_, live := f.Table[mountpoint]
+	bad, call := f.ubad[d.Id], 0
+	if cc := callOf(ctx); cc != nil {
+		bad, call = cc.UBad[d.Id], cc.ID
+	}
 	if !live {
-		f.Events = append(f.Events, Event{Ev: "unmount", D: d})
+		f.Events = append(f.Events, Event{Ev: "unmount", D: d, Call: call})
 		f.mu.Unlock()
 		return fmt.Errorf("not a mountpoint")
 	}
-	ok := !f.ubad[d.Id]
-	f.Events = append(f.Events, Event{Ev: "unmount", D: d, Live: true, OK: ok})
-	if _, err := os.Stat(mountpoint); err != nil {
+	ok := !bad
+	f.Events = append(f.Events, Event{Ev: "unmount", D: d, Live: true, OK: ok, Call: call})
+	if _, err := os.Stat(mountpoint); err != nil && !f.failedUnmount[mountpoint] {
+		// (after a scripted Unmount failure the snapshotter deletes the directory anyway and the registration
+		// stays: a later Unmount of that left-over registration is not a new fault)
 		f.problem("Unmount(%s) of a live mount after its directory was deleted", mountpoint)
 	}
 	if ok {
 		delete(f.Table, mountpoint)
+	} else {
+		if f.failedUnmount == nil {
+			f.failedUnmount = map[string]bool{}
+		}
+		f.failedUnmount[mountpoint] = true
 	}
-	cb := f.OnLiveUnmount
+	cb, cb2 := f.OnLiveUnmount, f.OnLiveUnmountCall
 	f.mu.Unlock()
 	if cb != nil {
 		cb(d.Id)
+	}
+	if cb2 != nil {
+		cb2(call, d.Id)
 	}
 	if !ok {
 		return fmt.Errorf("scripted unmount failure")
@@ -1113,6 +1164,13 @@ func (m *Machine) Destroy() {
 	}
 	os.RemoveAll(m.Root)
 }
+
+// Lock/Unlock give the concurrent harness consistent access to Events / Table / Problems.
+func (f *RecFS) Lock()   { f.mu.Lock() }
+func (f *RecFS) Unlock() { f.mu.Unlock() }
+
+// ParseMounts canonicalises a returned mount list (exported for cmd/snapconc).
+func (m *Machine) ParseMounts(ms []mount.Mount) Res { return m.parseMounts(ms) }
 
 // IDOf exposes a copy of the harness-side name -> id bookkeeping (cmd/snapcrash).
 func (m *Machine) IDOf() map[int]int {
